@@ -170,7 +170,18 @@ def metadata_xml(spec):
         conf = (IdPConfig() if spec["kind"] == "idp" else SPConfig())
         conf.load(copy.deepcopy(cnf), metadata_construction=True)
         ed = entity_descriptor(conf)
-        _MD_CACHE[key] = "%s" % ed
+        xml = "%s" % ed
+        strip = spec.get("md_strip_use")
+        if strip:
+            # a federation operator's tooling that drops the optional `use` attribute of KeyDescriptors
+            # (a use-less descriptor counts for signing and for encryption)
+            import xml.etree.ElementTree as ET
+            root = ET.fromstring(xml.encode("utf-8"))
+            for kd in root.iter("{urn:oasis:names:tc:SAML:2.0:metadata}KeyDescriptor"):
+                if strip == "all" or kd.get("use") == strip:
+                    kd.attrib.pop("use", None)
+            xml = ET.tostring(root, encoding="unicode")
+        _MD_CACHE[key] = xml
     return _MD_CACHE[key]
 
 
@@ -222,15 +233,19 @@ class Node(object):
         if p is None:
             return None
         usage = p.get("md_key_usage", "both")
+        strip = p.get("md_strip_use")
+        sign_kds = (["k%d" % p["key"]] + ["k%d" % k for k in p.get("extra_certs", [])]) if usage in ("both", "signing") else []
+        # entity_descriptor() publishes encryption KeyDescriptors for encryption_keypairs only
+        enc_kds = ["k%d" % k for k in (p.get("enc_keys") or [])] if usage in ("both", "encryption") else []
         res = []
         if use == "signing":
-            if usage in ("both", "signing"):
-                res.append("k%d" % p["key"])
-                res.extend("k%d" % k for k in p.get("extra_certs", []))
+            res.extend(sign_kds)
+            if strip in ("all", "encryption"):
+                res.extend(k for k in enc_kds if k not in res)     # use-less descriptors count for both uses
         else:
-            # entity_descriptor() publishes encryption KeyDescriptors for encryption_keypairs only
-            if usage in ("both", "encryption"):
-                res.extend("k%d" % k for k in (p.get("enc_keys") or []))
+            res.extend(enc_kds)
+            if strip in ("all", "signing"):
+                res.extend(k for k in sign_kds if k not in res)
         return res
 
 
